@@ -12,6 +12,7 @@ import json
 m=json.load(open('_out/meta.json'))['demo_cmd']
 print('--release' if '--release' in m else '')")
 DEMO="cargo test --offline $REL --test demo_$pid"
+if grep -q miri _out/meta.json; then DEMO="cargo +nightly miri test --offline --test demo_$pid"; fi
 echo "demo: $DEMO"
 cargo nextest run --workspace --no-fail-fast --test-threads 8 --offline -E "not binary(demo_$pid)" --status-level pass --final-status-level none --color never > _out/suite_with.txt 2>&1
 python3 - <<'PY' > _out/suite_cmp.txt
